@@ -477,6 +477,8 @@ def judge_ops(case, rec: Recorder | None = None) -> list[Disc]:
         pathop = op.startswith('path-')
         if pathop:
             A, B = A[:1] or [ref.root], []
+            if A[0].kind in ('attribute', 'namespace'):
+                A = [A[0].parent]       # (attribute:: from an attribute context is a recorded C01 finding, not this sub-check's subject)
         raw = bool(o.get('raw'))
         if raw:
             # every operand becomes a node that the caller can hold as an etree object
